@@ -121,14 +121,15 @@ class Interp(ExprMixin):
         preset.update(config or {})
         st = State()
         for name, default, kind in func.params():
-            if name in preset:
-                st.env[name] = preset[name]
+            known_as = func.old_name(name)          # renamed parameters keep the name the rules use
+            if known_as in preset or name in preset:
+                st.env[name] = preset[known_as] if known_as in preset else preset[name]
             elif kind == 'vararg':
-                st.env[name] = nf.sym('*' + name)
+                st.env[name] = nf.sym('*' + known_as)
             elif kind == 'kwarg':
-                st.env[name] = nf.sym('**' + name)
+                st.env[name] = nf.sym('**' + known_as)
             else:
-                st.env[name] = nf.sym(name)
+                st.env[name] = nf.sym(known_as)
         if func.cls is not None and not func.is_static and func.params():
             first = func.params()[0][0]
             a = st.env[first].single_atom() if isinstance(st.env[first], Poly) else None
@@ -403,7 +404,8 @@ class Interp(ExprMixin):
             self.note(st, 'B2', node, what=str(e), callee=f.key)
             self.log(st, 'call', node, callee=f.key, bound={}, args=args, kwargs=kwargs, bind_error=str(e))
             return Poly.atom(('fresh', fresh_id(), 'badcall:' + f.key))
-        ev = self.log_call(st, f, bound, node, args=args, kwargs=kwargs)
+        seen_as = f.rules_view(bound)
+        ev = self.log_call(st, f, seen_as, node, args=args, kwargs=kwargs)
         if self.should_inline(f):
             try:
                 r = self.inline(f, bound, st, node)
@@ -412,7 +414,7 @@ class Interp(ExprMixin):
                 raise
             ev.data['result'] = r
             return r
-        r = app('call:' + f.key, *[Tup([Const(k), v]) for k, v in bound.items()])
+        r = app('call:' + f.key, *[Tup([Const(k), v]) for k, v in seen_as.items()])
         ev.data['result'] = r
         return r
 
